@@ -333,6 +333,11 @@ def _copy(a, pre):
     except Exception:  # noqa: BLE001
         r["eq"] = False
     r["same_type"] = type(y) is type(x)
+    if isinstance(x, (_dt.datetime, _dt.time)):
+        try:
+            r["same_tzname"] = x.tzname() == y.tzname() and x.utcoffset() == y.utcoffset()
+        except Exception:  # noqa: BLE001
+            r["same_tzname"] = False
     return r
 
 
@@ -625,7 +630,7 @@ def _twin(x):
         return _dt.datetime(x.year, x.month, x.day, x.hour, x.minute, x.second, x.microsecond, tzinfo=tz, fold=x.fold)
     if isinstance(x, _dt.date):
         return _dt.date(x.year, x.month, x.day)
-    return _dt.time(x.hour, x.minute, x.second, x.microsecond)
+    return _dt.time(x.hour, x.minute, x.second, x.microsecond, tzinfo=x.tzinfo)
 
 
 def _cmp6(a, b):
@@ -643,7 +648,7 @@ def _native_acc(a, pre):
     p = P()
     x = pre[0]
     t = _twin(x)
-    neq, bad = [], []
+    neq, bad, xneq = [], [], []
     res = {"k": "nat"}
 
     def same(name, f, proj_=None):
@@ -658,6 +663,32 @@ def _native_acc(a, pre):
         if vx != vt:
             neq.append(name)
         return vx
+
+    def vkey(v):
+        """a date / time / datetime result reduced to what the native class defines: fields, offset, zone name"""
+        if isinstance(v, _dt.datetime):
+            return ("dt", v.year, v.month, v.day, v.hour, v.minute, v.second, v.microsecond, v.utcoffset(), v.tzinfo is None)
+        if isinstance(v, _dt.date):
+            return ("d", v.year, v.month, v.day)
+        if isinstance(v, _dt.time):
+            return ("t", v.hour, v.minute, v.second, v.microsecond, v.utcoffset(), v.tzinfo is None)
+        return v
+
+    def samev(name, f, g=None):
+        """the same call on the pendulum object / class and on the native one gives the same value"""
+        try:
+            vx = vkey(f(x))
+        except Exception as e:  # noqa: BLE001
+            vx = ("EXC", type(e).__name__)
+        try:
+            vt = vkey((g or f)(t))
+        except Exception as e:  # noqa: BLE001
+            vt = ("EXC", type(e).__name__)
+        if vx != vt:
+            xneq.append(name)
+
+    utc = _dt.timezone.utc
+    plus = _dt.timezone(_dt.timedelta(hours=5, minutes=30))
 
     def typed(name, f, want):
         try:
@@ -717,6 +748,27 @@ def _native_acc(a, pre):
         typed("time()", lambda: x.time(), "Time")
         typed("min", lambda: type(x).min, "DateTime")
         typed("max", lambda: type(x).max, "DateTime")
+        # class methods and tzinfo replacement, value by value against the native class
+        samev("replace-tzinfo-none", lambda v: v.replace(tzinfo=None))
+        samev("replace-tzinfo-utc", lambda v: v.replace(tzinfo=utc))
+        samev("replace-tzinfo-fixed", lambda v: v.replace(tzinfo=plus))
+        if x.tzinfo is None:
+            samev("replace-fields", lambda v: v.replace(microsecond=(v.microsecond + 1) % 1000000, minute=(v.minute + 7) % 60))
+        ts_ = (x.toordinal() - 719163) * 86400 + x.hour * 3600 + x.minute * 60 + x.second + 0.25
+        samev("cls-fromtimestamp-utc", lambda v: type(v).fromtimestamp(ts_, tz=utc))
+        samev("cls-fromtimestamp-fixed", lambda v: type(v).fromtimestamp(ts_ + 0.5, tz=plus))
+        samev("cls-utcfromtimestamp", lambda v: type(v).utcfromtimestamp(ts_))
+        samev("cls-fromordinal", lambda v: type(v).fromordinal(x.toordinal()))
+        samev("cls-combine", lambda v: type(v).combine(_dt.date(x.year, x.month, x.day), _dt.time(x.hour, x.minute, x.second, x.microsecond)))
+        samev("cls-combine-tz", lambda v: type(v).combine(_dt.date(x.year, x.month, x.day), _dt.time(x.hour, x.minute, x.second, x.microsecond, tzinfo=plus)))
+        samev("cls-combine-tzarg", lambda v: type(v).combine(_dt.date(x.year, x.month, x.day), _dt.time(x.hour, x.minute), utc))
+        txt = "%04d-%02d-%02d %02d:%02d:%02d.%06d" % (x.year, x.month, x.day, x.hour, x.minute, x.second, x.microsecond)
+        # pendulum's documented default: a value built without zone information is in UTC
+        samev("cls-strptime", lambda v: type(v).strptime(txt, "%Y-%m-%d %H:%M:%S.%f"),
+              lambda v: type(v).strptime(txt, "%Y-%m-%d %H:%M:%S.%f").replace(tzinfo=utc))
+        samev("cls-strptime-z", lambda v: type(v).strptime(txt + " +0530", "%Y-%m-%d %H:%M:%S.%f %z"))
+        samev("cls-fromisoformat", lambda v: type(v).fromisoformat(txt.replace(" ", "T") + "+05:30"))
+        samev("timetz-replace", lambda v: v.timetz().replace(tzinfo=None))
     elif isinstance(x, _dt.date):
         res["iso"] = proj.cps(same("isoformat", lambda v: v.isoformat()))
         same("strftime", lambda v: v.strftime("%Y-%m-%d %j %A %B %U %W %G %V %u"))
@@ -732,6 +784,14 @@ def _native_acc(a, pre):
         typed("fromordinal", lambda: type(x).fromordinal(730000), "Date")
         typed("fromtimestamp", lambda: type(x).fromtimestamp(1e9), "Date")
         typed("today", lambda: type(x).today(), "Date")
+        samev("replace-year", lambda v: v.replace(year=2000 + v.year % 400))
+        samev("replace-month", lambda v: v.replace(month=1 + v.month % 12, day=min(v.day, 28)))
+        samev("replace-day", lambda v: v.replace(day=1 + v.day % 28))
+        samev("cls-fromordinal", lambda v: type(v).fromordinal(x.toordinal()))
+        samev("cls-fromordinal-1", lambda v: type(v).fromordinal(max(1, x.toordinal() - 1)))
+        samev("cls-fromisoformat", lambda v: type(v).fromisoformat(x.isoformat()))
+        samev("cls-fromisocalendar", lambda v: type(v).fromisocalendar(*tuple(x.isocalendar())))
+        samev("cls-fromtimestamp", lambda v: type(v).fromtimestamp((x.toordinal() - 719163) * 86400 + 43200))
     else:
         res["iso"] = proj.cps(same("isoformat", lambda v: v.isoformat()))
         same("strftime", lambda v: v.strftime("%H:%M:%S.%f %I %p"))
@@ -739,12 +799,20 @@ def _native_acc(a, pre):
         same("tzname", lambda v: v.tzname())
         same("dst", lambda v: v.dst())
         typed("replace", lambda: x.replace(minute=1), "Time")
+        samev("replace-hour", lambda v: v.replace(hour=(v.hour + 1) % 24))
+        samev("replace-minute-second", lambda v: v.replace(minute=(v.minute + 1) % 60, second=(v.second + 59) % 60))
+        samev("replace-microsecond", lambda v: v.replace(microsecond=(v.microsecond + 1) % 1000000))
+        samev("replace-tzinfo-none", lambda v: v.replace(tzinfo=None))
+        samev("replace-tzinfo-utc", lambda v: v.replace(tzinfo=utc))
+        samev("replace-tzinfo-fixed", lambda v: v.replace(hour=3, tzinfo=plus))
+        samev("cls-fromisoformat", lambda v: type(v).fromisoformat(x.isoformat()))
     try:
         res["eq_twin"] = bool(x == t) and bool(t == x)
         res["hash_twin"] = hash(x) == hash(t)
     except Exception:  # noqa: BLE001
         res["eq_twin"] = res["hash_twin"] = False
     res["neq"] = neq
+    res["xneq"] = xneq
     res["badtypes"] = bad
     return res
 
@@ -948,6 +1016,21 @@ def _native(x):
     return _dt.date(x.year, x.month, x.day)
 
 
+def _native_k(x, kind):
+    """native twin whose tzinfo is of another KIND but denotes the same offset for this value"""
+    n = _native(x)
+    if not isinstance(n, _dt.datetime) or n.tzinfo is None or kind == "same":
+        return n
+    if kind == "timezone":          # datetime.timezone carrying the value's current offset, seconds included
+        return n.replace(tzinfo=_dt.timezone(x.utcoffset()))
+    if kind == "zoneinfo":
+        import zoneinfo
+
+        zr, _k = proj.zref(x.tzinfo)
+        return n.replace(tzinfo=zoneinfo.ZoneInfo(zr["n"])) if zr["n"] not in ("", "?") else n
+    raise ValueError(kind)
+
+
 def _sm(n, base):
     n = int(n)
     sg = (n > 0) - (n < 0)
@@ -988,9 +1071,9 @@ def _iv_len(a, pre):
     elif en == "abs":
         iv = abs(y - x)
     elif en == "sub_native":
-        iv = y - _native(x)
+        iv = y - _native_k(x, a.get("nk", "same"))
     elif en == "rsub_native":
-        iv = _native(y) - x
+        iv = _native_k(y, a.get("nk", "same")) - x
     else:
         raise ValueError(en)
     r = enc(iv)
